@@ -324,8 +324,14 @@ wait:
 			st.lastSite = site
 		}
 		if site == "" {
+			// measured over the bound but not attributable here (re-run too slow or
+			// different on a loaded machine): hand the input to the check, which
+			// repeats it alone in a fresh process before anything is concluded
 			st.AllocUnsited++
-			return // counted; the next exceedance of this mode is profiled again
+			writeReport(&Report{Target: target, Mode: mode, Kind: "alloc-unsited", Key: fuzzkey.Key(target, "alloc-unsited", "", mode),
+				Msg:    fmt.Sprintf("TotalAlloc delta %d B for %d input bytes exceeds bound %d B; site not attributed: %s", delta, total, bound, stack),
+				Corpus: corpusFile(args), InputLen: total, Alloc: delta, Bound: bound})
+			return
 		}
 		rep := &Report{Target: target, Mode: mode, Kind: "alloc", Key: fuzzkey.Key(target, "alloc", "", site),
 			Msg:   fmt.Sprintf("TotalAlloc delta %d B for %d input bytes exceeds bound %d B (largest allocation site %s: %d B)", delta, total, bound, site, siteBytes),
